@@ -554,7 +554,7 @@ func runC14FullRun(tier string, seed uint64, idx int, keepDir string) *CaseResul
 func init() {
 	caseRunners["C14"] = runC14Case
 	otherChecks["C14"] = func(tier string, seed uint64) int {
-		spec := checkSpec{Prop: "C14", Level: "exploration", NQuick: 160, NThorough: 4800,
+		spec := checkSpec{Prop: "C14", Level: "exploration", NQuick: 800, NThorough: 16000,
 			Rule:   fmt.Sprintf("7 of 8 case indices: %d generated configuration cases each (random subsets of all %d scalar keys in the file and/or on the line, values of every kind incl. the eight on/off spellings, unknown keys, missing file, two random argument orders), effective configuration read back from the real reader by probe-and-abort and compared key by key with default<-file<-line; 1 of 8: a full run whose line values differ from decoy file values, checked in the run state and the result files. evaluations = configuration cases + full runs; non-trivial = cases with at least one key present in both file and line, full runs > 30 days", c14SubCases, len(configKeys())),
 			Floors: []string{"key_checks", "keys_in_both", "keys_from_default", "unknown_keys_on_line", "cases_without_config_file", "cases_short_date_format", "order_permutations", "full_runs_checked", "run_value_checks"}}
 		return runSimCheck(spec, tier, seed)
